@@ -15,6 +15,11 @@ ob("Htrunc", ["C01"], entry="h_Htrunc", enforce="Htrunc", **HF)
 ob("HPgetdiskblock", ["C01", "C02", "C16", "C17", "C20"], entry="h_HPgetdiskblock", enforce="HPgetdiskblock", overflow=True, **HF)
 ob("Hsetlength", ["C01", "C16", "C20"], entry="h_Hsetlength", enforce="Hsetlength", overflow=True, **HF)
 ob("HIextend_file", ["C16", "C17"], entry="h_HIextend_file", enforce="HIextend_file", overflow=True, **HF)
+ob("HIrelease_accrec_node", ["C13"], entry="h_HIrelease_accrec_node", enforce="HIrelease_accrec_node", **HF)
+ob("hi_close_stdio", ["C16"], entry="h_hi_close_stdio", enforce="hi_close_stdio", **HF)
+ob("Hstartaccess", ["C13", "C14"], entry="h_Hstartaccess", enforce="Hstartaccess", replace=["HIrelease_accrec_node"], **HF)
+ob("Hendaccess", ["C13"], entry="h_Hendaccess", enforce="Hendaccess", replace=["HIrelease_accrec_node"], **HF)
+ob("Hclose", ["C13", "C16"], entry="h_Hclose", enforce="Hclose", **HF)
 
 prop("C01",
      residual="composition over histories (several handles, reopen, promotion followed by reads of old data, external file contents); HLconvert/HLcreate end-to-end; hbuffer.c",
